@@ -38,7 +38,7 @@ CONSTANTS NKeys, Vals, Wt, Depth, GenMode
 VARIABLES kv,      \* live content
           dur,     \* content of the last durable commit
           ck,      \* checkpoint content (SaveRoot)
-          st,      \* [clean, saved, commits] bookkeeping of the usage protocol
+          st,      \* [clean, saved, commits, gcs] bookkeeping of the usage protocol
           hist,
           last     \* name of the last action (observation only)
 
@@ -53,15 +53,20 @@ Log(r) == /\ last' = r.op
              ELSE hist' = hist
 
 Init == /\ kv = EmptyKV /\ dur = EmptyKV /\ ck = EmptyKV
-        /\ st = [clean |-> TRUE, saved |-> FALSE, commits |-> 0] /\ hist = <<>> /\ last = "init"
+        /\ st = [clean |-> TRUE, saved |-> FALSE, commits |-> 0, gcs |-> 0] /\ hist = <<>> /\ last = "init"
 
 Update(k, v) == /\ kv' = KPut(kv, k, v, Wt[v]) /\ st' = [st EXCEPT !.clean = FALSE]
                 /\ Log(Rec("update", k, v, 0)) /\ UNCHANGED <<dur, ck>>
 Delete(k)    == /\ kv' = DeleteResp(kv, k).m /\ st' = [st EXCEPT !.clean = FALSE]
                 /\ Log(Rec("delete", k, "", 0)) /\ UNCHANGED <<dur, ck>>
-Commit(lv)   == /\ dur' = kv /\ st' = [st EXCEPT !.clean = TRUE, !.commits = IF @ < 2 THEN @ + 1 ELSE 2]
+\* Garbage collection is staged: nodes superseded by a commit are queued, the first DeleteNodes pass after it arms the
+\* queue, the second removes them from storage.  A checkpoint therefore survives one pass after the commit that
+\* superseded it and is gone after the second (gcs counts the effective passes since the last effective commit).
+Commit(lv)   == /\ dur' = kv /\ st' = [st EXCEPT !.clean = TRUE, !.commits = IF @ < 2 THEN @ + 1 ELSE 2,
+                                                  !.gcs = IF st.clean THEN @ ELSE 0]
                 /\ Log(Rec("commit", 0, "", lv)) /\ UNCHANGED <<kv, ck>>
-GC           == Log(Rec("gc", 0, "", 0)) /\ UNCHANGED <<kv, dur, ck, st>>
+GC           == /\ st' = [st EXCEPT !.gcs = IF st.clean /\ @ < 2 THEN @ + 1 ELSE @]    \* a pass on a dirty trie does nothing
+                /\ Log(Rec("gc", 0, "", 0)) /\ UNCHANGED <<kv, dur, ck>>
 \* reloading replaces the trie object; the checkpoint (kept in the object) is forgotten
 Reload       == /\ st.clean /\ st' = [st EXCEPT !.saved = FALSE]
                 /\ Log(Rec("reload", 0, "", 0)) /\ UNCHANGED <<kv, dur, ck>>
@@ -69,7 +74,7 @@ ReadRoot     == Log(Rec("readroot", 0, "", 0)) /\ UNCHANGED <<kv, dur, ck, st>>
 Owners       == Log(Rec("owners", 0, "", 0)) /\ UNCHANGED <<kv, dur, ck, st>>
 SaveRoot     == /\ st.clean /\ ck' = kv /\ st' = [st EXCEPT !.saved = TRUE, !.commits = 0]
                 /\ Log(Rec("saveroot", 0, "", 0)) /\ UNCHANGED <<kv, dur>>
-Rollback(how) == /\ st.clean /\ st.saved /\ st.commits = 1
+Rollback(how) == /\ st.clean /\ st.saved /\ st.commits = 1 /\ st.gcs <= 1
                  /\ kv' = ck /\ dur' = ck /\ st' = [st EXCEPT !.saved = FALSE]
                  /\ Log(Rec(how, 0, "", 0)) /\ UNCHANGED ck
 
